@@ -11,10 +11,10 @@ go build ./... && go test -vet=off -count=1 ./config/... ./internal/... ./loadfi
 cp $O/$DEMO $W/$PKG/zz_demo_test.go
 echo "== demo with change (expect FAIL)"
 timeout 300 go test -vet=off -count=1 -run "$RE" ./$PKG/ 2>&1 | tail -5
-git stash -q
+git diff > /tmp/seed/$ID.restore.diff; git checkout -q -- .
 cp $O/$DEMO $W/$PKG/zz_demo_test.go
 echo "== demo without change (expect ok)"
 timeout 300 go test -vet=off -count=1 -run "$RE" ./$PKG/ 2>&1 | tail -3
 rm -f $W/$PKG/zz_demo_test.go
-git stash pop -q
+git apply /tmp/seed/$ID.restore.diff
 git status --short | head -5
